@@ -60,9 +60,10 @@ class Inst:
 
 
 class FillC:
-    __slots__ = ("name", "body", "env", "owner", "data_alias", "default_alias", "between", "ck")
+    __slots__ = ("name", "body", "env", "owner", "data_alias", "default_alias", "between", "ck", "tag_depth", "only")
 
-    def __init__(self, name, body, env, owner, data_alias=None, default_alias=None, between=(), ck=None):
+    def __init__(self, name, body, env, owner, data_alias=None, default_alias=None, between=(), ck=None,
+                 tag_depth=0, only=False):
         self.name = name
         self.body = body
         self.env = env
@@ -71,6 +72,8 @@ class FillC:
         self.default_alias = default_alias
         self.between = between
         self.ck = ck
+        self.tag_depth = tag_depth
+        self.only = only
 
 
 class DefaultRef:
@@ -88,7 +91,8 @@ def truthy(v):
 
 
 class Model:
-    def __init__(self, prog, step_cap=2_000_000):
+    def __init__(self, prog, step_cap=2_000_000, quirks=()):
+        self.quirks = set(quirks)
         self.prog = prog
         self.mode = prog["mode"]
         self.comps = {c["name"]: c for c in prog["comps"]}
@@ -219,7 +223,7 @@ class Model:
         kw = {k: self.ev(e, env) for k, e in kwargs}
         if not dyn and cname not in self.comps:
             raise ModelError("NotRegistered", cname)
-        fills = self.discover(bk, body, env, owner, prov, ck)
+        fills = self.discover(bk, body, env, owner, prov, ck, only)
         if dyn:
             inst = Inst(len(self.insts), "dynamic", None)
             inst.parent = self.cur
@@ -231,7 +235,7 @@ class Model:
             inst.prov = prov
             if cname not in self.comps:
                 raise ModelError("NotRegistered", cname)
-            inst.env = env if (self.mode == "django" and not only) else Env()
+            inst.env = env if (self.mode == "django" and not only) else self.isolated_base(env)
             return inst
         inst = Inst(len(self.insts), cname, self.comps[cname])
         inst.parent = self.cur
@@ -240,9 +244,18 @@ class Model:
         inst.prov = prov
         inst.kw = kw
         self.gcd(inst, kw, prov)
-        base = env if (self.mode == "django" and not only) else Env()
+        base = env if (self.mode == "django" and not only) else self.isolated_base(env)
         inst.env = base.push(("data", inst.idx), inst.data)
         return inst
+
+    def isolated_base(self, env):
+        """Environment an isolated component starts from: nothing - unless the quirk of known finding F7 is being
+        modelled (the whole layer of the innermost enclosing {% for %}, loop variable included, is forwarded)."""
+        if "forloop_layer" in self.quirks:
+            for tag, d in reversed(env.layers):
+                if tag == "loop":
+                    return Env().push("loop", d)
+        return Env()
 
     def gcd(self, inst, kw, prov):
         cd = inst.comp
@@ -258,10 +271,11 @@ class Model:
             raise ModelError("KeyError", "inject " + key)
 
         inst.data = comp_data(cd["name"], kw, inj, cd["injects"], cd.get("echo_id"), ("ID", inst.idx),
-                              cd.get("label"))
+                              cd.get("label"), cd.get("extra_data"))
 
     # ------------------------------------------------------------------ fills
-    def discover(self, bk, body, env, owner, prov, ck):
+    def discover(self, bk, body, env, owner, prov, ck, only=False):
+        tag_depth = len(env.layers)
         if bk == "none" or not body:
             return {}
         captured = []
@@ -292,7 +306,7 @@ class Model:
                     name = self.ev(n[1], e)
                     if not isinstance(name, str):
                         raise ModelError("TemplateSyntaxError", "fill name not a string")
-                    captured.append(FillC(name, n[4], e, owner, n[2], n[3], ck=ck))
+                    captured.append(FillC(name, n[4], e, owner, n[2], n[3], ck=ck, tag_depth=tag_depth, only=only))
                 elif k in ("comp", "slot"):
                     pass  # render nothing during fill discovery
                 elif k == "provide":
@@ -318,7 +332,7 @@ class Model:
             blank = all(n[0] == "text" and not n[1].strip() for n in body)
             if blank:
                 return {}
-            return {"default": FillC("default", body, env, owner, ck=ck)}
+            return {"default": FillC("default", body, env, owner, ck=ck, tag_depth=tag_depth, only=only)}
         if "".join(text).strip():
             raise ModelError("TemplateSyntaxError", "text beside fills")
         fills = {}
@@ -351,7 +365,50 @@ class Model:
             self.render_nodes(body, env, owner, prov, out, ck)
             return
         self.probe("slot_filled")
-        fenv = f.env
+        between = f.env.layers[f.tag_depth:]
+        if "extra_context_as_code" in self.quirks:
+            # Known finding F15: how the library really merges and places the variables captured with a fill
+            # (slots.py FillNode._extract_fill + render_func): one dict made of the bindings between tag and fill,
+            # then overwritten by EVERY {% for %} layer visible at the fill (also those around the component tag);
+            # inserted below the last component data layer of the context the fill renders in - which is the data of
+            # the component the fill was written in (isolated), or the very top when the key override layer is last.
+            extra = {}
+            for _, d in between:
+                extra.update(d)
+            for tag, d in f.env.layers:
+                if tag == "loop":
+                    extra.update(d)
+            if self.mode == "isolated" or f.only:
+                layers = list(f.env.layers[:f.tag_depth])
+                target = ("data", f.owner.idx) if f.owner is not None else None
+                on_top = False
+            else:
+                layers = list(env.layers)
+                target = ("data", owner.idx)
+                on_top = f.ck is not None
+            pos = None
+            for k, (tag, _) in enumerate(layers):
+                if tag == target:
+                    pos = k
+            if on_top or pos is None:
+                fenv = Env(tuple(layers) + (("extra", extra),))
+            else:
+                fenv = Env(tuple(layers[:pos]) + (("extra", extra),) + tuple(layers[pos:]))
+        elif self.mode == "isolated" or f.only:
+            # lexical: the environment at the {% component %} tag + the loops the fill sits in
+            fenv = f.env
+        else:
+            # django: inner-component data > variables bound between the component tag and the fill > outer variables;
+            # bindings made by the inner template around the slot stay on top (they are part of the inner context)
+            layers = list(env.layers)
+            pos = None
+            for k, (tag, _) in enumerate(layers):
+                if tag == ("data", owner.idx):
+                    pos = k
+            if pos is None:
+                fenv = Env(tuple(layers) + tuple(between))
+            else:
+                fenv = Env(tuple(layers[:pos]) + tuple(between) + tuple(layers[pos:]))
         al = {}
         if f.data_alias:
             al[f.data_alias] = kwargs
@@ -467,9 +524,9 @@ def stream_structure(stream):
     return elems, order
 
 
-def run_model(prog):
+def run_model(prog, quirks=()):
     """Returns dict(result=("ok", text)|("err", kind), model=Model, stream=...)."""
-    m = Model(prog)
+    m = Model(prog, quirks=quirks)
     try:
         stream = m.render_page()
     except ModelError as e:
